@@ -11,6 +11,8 @@ package main
 //   - which functions set each closed bit, which call closeSession, which
 //     touch the output encoder `x.out.e`, and
 //   - the calls made, in order, by Serve's deferred shutdown function,
+//   - the calls that can block (connection / encoder writes, reads, locks,
+//     yield points) inside critical sections of the state mutex (none),
 //   - (internal/stream/reader.go, negotiator.go) that with WebSocket framing
 //     the peer's <close/> is the end of the stream and that the negotiator
 //     tells the session which framing it uses.
@@ -245,6 +247,61 @@ func (g *gen) sessClose() {
 			fds = append(fds, fd)
 		}
 	}
+
+	// Critical sections of the state mutex: from a call <x>.stateMutex.Lock() /
+	// RLock() to the next <x>.stateMutex.Unlock() / RUnlock() of the same
+	// function, or to the end of the function when the unlock is deferred. No
+	// call that can block (a write to the connection or into the encoder, a read,
+	// another lock, a yield point, a function of this file that does one of
+	// those) may sit inside: the model performs each section as one operation.
+	blocking := map[string]bool{"Write": true, "EncodeToken": true, "Flush": true, "WriteXML": true, "Encode": true,
+		"EncodeElement": true, "Copy": true, "Close": true, "closeSession": true, "sendError": true, "Token": true,
+		"Yield": true, "Send": true, "SendElement": true, "send": true, "Serve": true, "Read": true, "Lock": true, "RLock": true,
+		"closeInputStream": true, "Fprintf": true, "Fprint": true}
+	var offenders []string
+	for _, fd := range fds {
+		_, chains, pos := scCalls(fd.Body)
+		// deferred unlocks
+		deferred := map[token.Pos]bool{}
+		ast.Inspect(fd.Body, func(m ast.Node) bool {
+			if ds, is := m.(*ast.DeferStmt); is {
+				if c := scSelChain(ds.Call.Fun); c != nil && len(c) >= 2 && c[len(c)-2] == "stateMutex" {
+					deferred[ds.Call.Pos()] = true
+				}
+			}
+			return true
+		})
+		for i, c := range chains {
+			if len(c) < 2 || c[len(c)-2] != "stateMutex" || (c[len(c)-1] != "Lock" && c[len(c)-1] != "RLock") {
+				continue
+			}
+			end := fd.Body.End()
+			// the unlock that ends this section
+			for j := i + 1; j < len(chains); j++ {
+				d := chains[j]
+				if len(d) >= 2 && d[len(d)-2] == "stateMutex" && (d[len(d)-1] == "Unlock" || d[len(d)-1] == "RUnlock") {
+					if deferred[pos[j]] {
+						end = fd.Body.End()
+					} else {
+						end = pos[j]
+					}
+					break
+				}
+			}
+			for j := i + 1; j < len(chains) && pos[j] < end; j++ {
+				d := chains[j]
+				if len(d) >= 2 && d[len(d)-2] == "stateMutex" {
+					continue
+				}
+				if blocking[d[len(d)-1]] {
+					offenders = append(offenders, scFuncName(fd)+": "+d[len(d)-1])
+				}
+			}
+		}
+	}
+	sort.Strings(offenders)
+	g.p("\n(* ---- session.go: calls that can block inside a critical section of the state mutex ---- *)\n")
+	g.scList("sc_statelock_blocking_calls", offenders)
 	// functions (by qualified name) whose body mentions OutputStreamClosed
 	testsOut := map[string]bool{}
 	for _, fd := range fds {
